@@ -38,7 +38,8 @@ def flStr (s : St) : String :=
 def stateStr (x : Sess) : String :=
   let s := x.st
   let rem := s.cap - s.allocated
-  s!"al={s.allocated} di={s.discarded} rem={rem} ms={s.minSeg} cp={s.cap} rf={x.refs} fl={flStr s} mem={hex16 (fnv1a (s.image x.cfg))}"
+  let img := s.image x.cfg
+  s!"al={s.allocated} di={s.discarded} rem={rem} ms={s.minSeg} cp={s.cap} rf={x.refs} fl={flStr s} mem={hex16 (fnv1a img)} ma={hex16 (fnv1a (img.extract 0 s.allocated))}"
 
 def failStr : Fail → String
   | .trap site => s!"trap:{site}"
@@ -225,7 +226,7 @@ def step (x : Sess) (toks : List String) : Step :=
     match parseTy ty, parseOrder ord, off.toNat? with
     | some t, some o, some off =>
       match rdFixed (x.st.image c) x.st.allocated off t o with
-      | .ok v => simple x s!"r=ok val={v}"
+      | .ok v => simple x s!"r=ok val={v} ref={v}"
       | .error _ => simple x "r=OutOfBounds"
     | _, _, _ => { sess := some x, out := "bad-op" }
   | ["rd_var", ty, off] =>
@@ -262,16 +263,16 @@ def step (x : Sess) (toks : List String) : Step :=
       match parseTy ty, parseOrder ord, v.toInt? with
       | some t, some o, some v =>
         match bufPut x.st.mem hd t o v with
-        | .error e => simple x s!"r={bufErrStr e} len={hd.len}"
-        | .ok (mem, hd') => simple ({ x with st := { x.st with mem := mem } }.put id hd') s!"r=ok len={hd'.len}"
+        | .error e => simple x s!"r={bufErrStr e} len={hd.len} oo=1"
+        | .ok (mem, hd') => simple ({ x with st := { x.st with mem := mem } }.put id hd') s!"r=ok len={hd'.len} oo=1"
       | _, _, _ => { sess := some x, out := "bad-op" }
   | ["get", h, ty, ord] =>
     withBuf h fun id hd =>
       match parseTy ty, parseOrder ord with
       | some t, some o =>
         match bufGet x.st.mem hd t o with
-        | .error e => simple x s!"r={bufErrStr e} len={hd.len}"
-        | .ok (v, hd') => simple (x.put id hd') s!"r=ok val={v} len={hd'.len}"
+        | .error e => simple x s!"r={bufErrStr e} len={hd.len} oo=1"
+        | .ok (v, hd') => simple (x.put id hd') s!"r=ok val={v} len={hd'.len} oo=1"
       | _, _ => { sess := some x, out := "bad-op" }
   | ["put_var", h, ty, v] =>
     withBuf h fun id hd =>
@@ -280,24 +281,24 @@ def step (x : Sess) (toks : List String) : Step :=
         let (mem, r) := bufPutVarint x.st.mem hd t v
         let x := { x with st := { x.st with mem := mem } }
         match r with
-        | .error e => simple x s!"r={bufErrStr e} len={hd.len}"
-        | .ok (n, hd') => simple (x.put id hd') s!"r=ok n={n} len={hd'.len}"
+        | .error e => simple x s!"r={bufErrStr e} len={hd.len} oo=1"
+        | .ok (n, hd') => simple (x.put id hd') s!"r=ok n={n} len={hd'.len} oo=1"
       | _, _ => { sess := some x, out := "bad-op" }
   | ["get_var", h, ty] =>
     withBuf h fun _ hd =>
       match parseTy ty with
       | some t =>
         match bufGetVarint x.st.mem hd t with
-        | .error e => simple x s!"r={bufErrStr e} len={hd.len}"
-        | .ok (n, v) => simple x s!"r=ok n={n} val={v} len={hd.len}"
+        | .error e => simple x s!"r={bufErrStr e} len={hd.len} oo=1"
+        | .ok (n, v) => simple x s!"r=ok n={n} val={v} len={hd.len} oo=1"
       | none => { sess := some x, out := "bad-op" }
   | ["put_slice", h, l, b] =>
     withBuf h fun id hd =>
       match l.toNat?, b.toNat? with
       | some l, some b =>
         match bufPutSlice x.st.mem hd l (UInt8.ofNat b) with
-        | .error e => simple x s!"r={bufErrStr e} len={hd.len}"
-        | .ok (mem, hd') => simple ({ x with st := { x.st with mem := mem } }.put id hd') s!"r=ok len={hd'.len}"
+        | .error e => simple x s!"r={bufErrStr e} len={hd.len} oo=1"
+        | .ok (mem, hd') => simple ({ x with st := { x.st with mem := mem } }.put id hd') s!"r=ok len={hd'.len} oo=1"
       | _, _ => { sess := some x, out := "bad-op" }
   | ["set_len", h, n] =>
     withBuf h fun id hd =>
@@ -305,7 +306,7 @@ def step (x : Sess) (toks : List String) : Step :=
       | some n =>
         match bufSetLen x.st.mem hd n with
         | .error e => simple x s!"r={bufErrStr e} len={hd.len}"
-        | .ok (mem, hd') => simple ({ x with st := { x.st with mem := mem } }.put id hd') s!"r=ok len={hd'.len}"
+        | .ok (mem, hd') => simple ({ x with st := { x.st with mem := mem } }.put id hd') s!"r=ok len={hd'.len} oo=1"
       | none => { sess := some x, out := "bad-op" }
   | ["align_to", h, a, s] =>
     withBuf h fun id hd =>
@@ -314,10 +315,11 @@ def step (x : Sess) (toks : List String) : Step :=
         if !okAlign a s then { sess := some x, out := "bad-op" }
         else match bufAlignTo hd a s with
           | .error f => failed f
-          | .ok (.error e) => simple x s!"r={bufErrStr e} len={hd.len}"
+          | .ok (.error e) => simple x s!"r={bufErrStr e} len={hd.len} oo=1"
           | .ok (.ok (po, hd')) =>
-            let pos := match po with | some p => toString p | none => "dangling"
-            simple (x.put id hd') s!"r=ok po={pos} len={hd'.len}"
+            -- the pointer of an empty owned buffer is `NonNull::dangling()`, not an arena address
+            let pos := match po with | some p => (if hd.null && hd.owned then "dangling" else toString p) | none => "dangling"
+            simple (x.put id hd') s!"r=ok po={pos} len={hd'.len} oo=1"
       | _, _ => { sess := some x, out := "bad-op" }
   | ["put_aligned", h, a, s, b] =>
     withBuf h fun id hd =>
@@ -326,18 +328,18 @@ def step (x : Sess) (toks : List String) : Step :=
         if !okAlign a s then { sess := some x, out := "bad-op" }
         else match bufPutAligned x.st.mem hd a s (UInt8.ofNat b) with
           | .error f => failed f
-          | .ok (.error e) => simple x s!"r={bufErrStr e} len={hd.len}"
+          | .ok (.error e) => simple x s!"r={bufErrStr e} len={hd.len} oo=1"
           | .ok (.ok (po, mem, hd')) =>
-            let pos := match po with | some p => toString p | none => "dangling"
-            simple ({ x with st := { x.st with mem := mem } }.put id hd') s!"r=ok po={pos} len={hd'.len}"
+            let pos := match po with | some p => (if hd.null && hd.owned then "dangling" else toString p) | none => "dangling"
+            simple ({ x with st := { x.st with mem := mem } }.put id hd') s!"r=ok po={pos} len={hd'.len} oo=1"
       | _, _, _ => { sess := some x, out := "bad-op" }
   | ["putT", h, _a, s, b] =>
     withBuf h fun id hd =>
       match s.toNat?, b.toNat? with
       | some s, some b =>
         match bufPutT x.st.mem hd s (UInt8.ofNat b) with
-        | .error e => simple x s!"r={bufErrStr e} len={hd.len}"
-        | .ok (mem, hd') => simple ({ x with st := { x.st with mem := mem } }.put id hd') s!"r=ok len={hd'.len}"
+        | .error e => simple x s!"r={bufErrStr e} len={hd.len} oo=1"
+        | .ok (mem, hd') => simple ({ x with st := { x.st with mem := mem } }.put id hd') s!"r=ok len={hd'.len} oo=1"
       | _, _ => { sess := some x, out := "bad-op" }
   | _ => { sess := some x, out := "bad-op" }
 
@@ -352,7 +354,9 @@ partial def loop (h : IO.FS.Stream) (out : IO.FS.Stream) (sess : Option Sess) : 
     | none => out.putStrLn "bad-op"; loop h out none
     | some o =>
       match Sess.init o with
-      | none => out.putStrLn "r=InsufficientSpace"; loop h out none
+      | none =>
+        -- `Options::alloc` reports `Error::InsufficientSpace`, the map constructors wrap it into `InvalidInput`
+        out.putStrLn (if o.file || o.anon then "r=io:InvalidInput" else "r=InsufficientSpace"); loop h out none
       | some x => out.putStrLn s!"r=ok doff={x.cfg.dataOffset} {stateStr x}"; loop h out (some x)
   | _ =>
     match sess with
